@@ -10,11 +10,11 @@ func init() {
 			// for len(inner.byAge) > 0 && now.Sub(inner.byAge[0].LastSeen) >= timeout { heap.Pop(inner) }
 			{lean: "removeExpired_guard", dir: d, name: "clientMapInner.removeExpired", contains: "timeout",
 				params: []absParam{{"n", tInt}, {"now", tZ}, {"lastSeen", tZ}, {"timeout", tZ}},
-				abs: map[string]string{"len(inner.byAge)": "n", "now": "now", "inner.byAge[0].LastSeen": "lastSeen", "timeout": "timeout"}},
+				abs:    map[string]string{"len(inner.byAge)": "n", "now": "now", "inner.byAge[0].LastSeen": "lastSeen", "timeout": "timeout"}},
 			// return inner.byAge[i].LastSeen.Before(inner.byAge[j].LastSeen)
 			{lean: "clientMap_less", dir: d, name: "clientMapInner.Less", contains: "LastSeen",
 				params: []absParam{{"a", tZ}, {"b", tZ}},
-				abs: map[string]string{"inner.byAge[i].LastSeen": "a", "inner.byAge[j].LastSeen": "b"}},
+				abs:    map[string]string{"inner.byAge[i].LastSeen": "a", "inner.byAge[j].LastSeen": "b"}},
 		},
 		skels: []skelSpec{
 			{lean: "skel_NewRedialPacketConn", dir: d, name: "NewRedialPacketConn", calls: ``},
@@ -25,7 +25,7 @@ func init() {
 			{lean: "skel_redialReadFrom", dir: d, name: "RedialPacketConn.ReadFrom", calls: ``},
 			{lean: "skel_redialWriteTo", dir: d, name: "RedialPacketConn.WriteTo", calls: `^copy$`},
 			{lean: "skel_QueueIncoming", dir: d, name: "QueuePacketConn.QueueIncoming", calls: `^copy$`},
-			{lean: "skel_queueWriteTo", dir: d, name: "QueuePacketConn.WriteTo", calls: `^copy$|SendQueue`},
+			{lean: "skel_queueWriteTo", dir: d, name: "QueuePacketConn.WriteTo", calls: `^copy$|SendQueue|trySend`},
 			{lean: "skel_queueReadFrom", dir: d, name: "QueuePacketConn.ReadFrom", calls: `^copy$`},
 			{lean: "skel_queueCloseWithError", dir: d, name: "QueuePacketConn.closeWithError", calls: `Store`},
 			{lean: "skel_OutgoingQueue", dir: d, name: "QueuePacketConn.OutgoingQueue", calls: `SendQueue`},
@@ -36,6 +36,7 @@ func init() {
 			{lean: "skel_cmLen", dir: d, name: "clientMapInner.Len", calls: ``},
 			{lean: "skel_NewClientMap", dir: d, name: "NewClientMap", calls: `removeExpired|Sleep`},
 			{lean: "skel_ClientMapSendQueue", dir: d, name: "ClientMap.SendQueue", calls: `SendQueue`},
+			{lean: "skel_ClientMapTrySend", dir: d, name: "ClientMap.trySend", calls: `SendQueue|Lock|Unlock`},
 		},
 	})
 }
